@@ -34,25 +34,32 @@ TRUSTED = [
     're.split(r\'(-?\\d*\\.?\\d+)\') is modelled at character level for ASCII input (greedy with backtracking: longest digit run, '
     'optional .digits); str(radius) for numeric radii is Python\'s',
     'Print Assumptions lists PrimFloat.float (the primitive binary64 type) for theorems that mention the generated float table',
-    'C19_euclidean_is_metric_over_R uses the Coq standard library real numbers: axioms ClassicalDedekindReals.sig_forall_dec, '
-    'ClassicalDedekindReals.sig_not_dec, FunctionalExtensionality.functional_extensionality_dep (all other theorems are axiom-free; '
-    'the same triangle inequality is also proved sqrt-free over Z without axioms)',
+    'C19_euclidean_is_metric_over_R, C19_great_circle_range and C19_great_circle_range_real_functions use the Coq standard library real '
+    'numbers: axioms ClassicalDedekindReals.sig_forall_dec, ClassicalDedekindReals.sig_not_dec, '
+    'FunctionalExtensionality.functional_extensionality_dep, and Classical_Prop.classic for C19_great_circle_range_real_functions only; all other theorems are '
+    'axiom-free (the Euclidean triangle inequality is also proved sqrt-free over Z without axioms)',
+    'C19_great_circle_range is about the formula with exact real + - * / sqrt and ARBITRARY sin / cos / asin / pi satisfying its stated '
+    'premises (Pythagoras, cos addition formulas, cos >= 0 on [-pi/2, pi/2], asin[0,1] within [0, pi/2]); that libm satisfies them up to '
+    'rounding is not proved — the rounded float results are covered by the oracle (d in [0, pi R (1+1e-15)], no NaN at antipodes)',
 ]
 ASSUMPTIONS = ['ASCII distance strings (Python \\d and float() also accept other Unicode digits)',
                'positive finite cell sizes; numeric radii whose str() is positional (no exponent form)',
                'the model is the behaviour after fixes/C19-get-distance-finite.diff (nan / inf distances rejected)',
                'coordinates away from the subnormal range for "zero iff coincident" (x*x underflows below ~1e-162)']
 PARTIAL = [
-    'great-circle triangle inequality and the bound d <= pi*R: not proved in Coq (spherical trigonometry over libm functions); '
-    'checked by the oracle on generated triples incl. poles / antimeridian / antipodes with tolerance 2e-7*R (1e-9*R for local triples within 1 km)',
+    'great-circle triangle inequality: not proved in Coq (spherical trigonometry; stated in the property, unclaimed); checked by the '
+    'oracle on generated triples incl. poles / antimeridian / antipodes / local triples with tolerance',
+    'the bound 0 <= d <= pi*R is proved for the real-arithmetic formula under explicit premises on sin/cos/asin (and for the real functions '
+    'of the standard library), not for the rounded binary64 evaluation',
     'great-circle symmetry is proved for the formula over any arithmetic in which subtraction is antisymmetric, halving and sin are odd '
     'and multiplication commutes (visible hypotheses), and is checked bit-for-bit on floats by the oracle',
     'Euclidean / Manhattan metric axioms are proved for the exact formulas (R, Z); there is no theorem about the rounded float results '
     '(the triangle inequality can fail by an ulp in floats; the oracle allows 4 ulp)',
     '_get_distance: the tokenizer is proved lossless and terminating, and the accept/reject decision is characterised in terms of its '
     'token list; completeness for the grammar number[unit] is proved for unit suffixes without digits, dots and minus signs',
-    'calc_cellsize: the resolution read from attrs/coords (xrspatial.utils) is modelled (res pass-through, (max-min)/(n-1)) and '
-    'corresponded, no theorem',
+    'calc_cellsize: the choice of resolution (attrs res pair / scalar / coordinates), default unit and table conversion are proved for the '
+    'model in any arithmetic and at the exact Q instance; how xarray stores attrs / coordinate min-max (xrspatial.utils, isinstance tests on '
+    'the res attribute) is modelled by the res_attr case distinction made in the harness and tied by the cellsize_full correspondence',
 ]
 LEVEL_TEXT = ('Proved for all inputs (Coq; axiom-free except the one theorem over R): Manhattan distance over Z is a metric (symmetric, zero iff coincident, triangle '
               'inequality); the Euclidean formula over R is a metric (stdlib real axioms) and its square over Z satisfies the sqrt-free triangle '
@@ -61,8 +68,10 @@ LEVEL_TEXT = ('Proved for all inputs (Coq; axiom-free except the one theorem ove
               'shape (2hh+1)x(2hw+1), equals the ellipse mask, is symmetric under both flips, has centre 1, and the annulus is outer minus '
               'the centred inner kernel with every cell in {0,1}; the distance-string tokenizer is lossless/terminating and _get_distance '
               'accepts exactly number[unit] with a positive finite number and a table unit, returning number x factor; the generated UNITS '
-              'table has the stated factors. Float results of all functions are compared bit-for-bit with the extracted model; metric axioms '
-              'on the sphere are oracle-only.')
+              'table has the stated factors; great-circle distance lies in [0, pi R] for in-range coordinates (real arithmetic, explicit premises on '
+              'sin/cos/asin, discharged for the real functions); calc_cellsize uses attrs res (pair/scalar) else (max-min)/(n-1), converts through '
+              'the table, never returns a negative y size and yields the spacing for evenly spaced coordinates. Float results of all functions '
+              'are compared bit-for-bit with the extracted model; the spherical triangle inequality is oracle-only.')
 LEVEL_NOTE = ('Trusted: Coq kernel, extraction incl. ExtrOCamlFloats, OCaml libm and float parsing, the harness; NumPy linspace/pad '
               'semantics as modelled.')
 
@@ -817,6 +826,15 @@ def run_cellsize(ctx, conv, lines, cmp):
                 lines.append(ln)
                 cmp.append(('float', float(v), case))
         lines.append('cellsize %s %s %s' % (hx(rx), hx(ry), sx(u)))
+        cmp.append(('cellsize', r, case))
+        # the whole of calc_cellsize: which resolution source is used, default unit, conversion
+        if src == 'coords':
+            full = 'none %s %s %s %s %s %s %s %s' % (hx(0), hx(0), hx(xs.min()), hx(xs.max()), hx(w - 1),
+                                                     hx(ys.min()), hx(ys.max()), hx(h - 1))
+        else:
+            full = '%s %s %s %s %s %s %s %s %s' % ('pair' if src == 'res-pair' else 'scalar', hx(rx), hx(ry),
+                                                   hx(0), hx(1), hx(w - 1), hx(0), hx(1), hx(h - 1))
+        lines.append('cellsize_full %s %d %s' % (full, 0 if unit is None else 1, sx(unit or '')))
         cmp.append(('cellsize', r, case))
 
 
